@@ -12,7 +12,16 @@ def matrix(match, mismatch):
     return align.SubstitutionMatrix(ALPH, ALPH, m)
 
 
-MATRICES = {"+1/-1": matrix(1, -1), "+2/-3": matrix(2, -3), "+1/0": matrix(1, 0)}
+def asymmetric():
+    """bisulfite-like scoring: the pair (first C, second T) scores like a match, (first T, second C) does not"""
+    m = np.full((4, 4), -2, dtype=np.int32)
+    np.fill_diagonal(m, 2)
+    m[1, 3] = 2          # C (sequence 1) over T (sequence 2)
+    m[0, 2] = 1          # A over G: half a match, G over A: mismatch
+    return align.SubstitutionMatrix(ALPH, ALPH, m)
+
+
+MATRICES = {"+1/-1": matrix(1, -1), "+2/-3": matrix(2, -3), "+1/0": matrix(1, 0), "asymmetric": asymmetric()}
 
 
 def all_traces(n1, n2, i0=0, j0=0):
